@@ -4,6 +4,8 @@ import json, os
 V = os.path.dirname(os.path.dirname(os.path.abspath(__file__)))
 TECH = "machine-checked proof in Coq 8.16 over a hand-written executable model; model tied to the current source by a differential correspondence run (Go harness via -overlay vs vm_compute of the model) and, where noted, go/ast translators; property monitor evaluated in Coq on implementation traces"
 CLAIMED = {
+ "C07": ("pass <-> aligned passing identifier, temperror <-> undecided, none when not evaluated, action = published policy, fail-closed on temporary DNS failure and bad From never passing are kernel-checked for result lists of any length and any public-suffix list; the model (verdict, action, direct EvaluateAlignment) is compared with the real verifier + checkRunner.applyResults on a structured sweep and generated cases.",
+         "Trusted: Coq kernel, Go harness with scripted resolver, public-suffix oracle tables recorded per case, library parsing of records / From headers; pct other than absent/100 not exercised. Theorems assume one SPF result (as the property quantifies)."),
  "C16": ("Theorems over error trees of any depth (wrapErr, toSMTPErr, helper codes, reject directive) are kernel-checked; a generated theorem covers every SMTP error literal of the current tree; the model is compared with the real conversions (wire form through go-smtp) on generated error trees. Proof is the right level because the claim quantifies over all error values and all literals.",
          "Trusted: Coq kernel, litgen translator, Go harness, hand-written model validated differentially; errors are assumed well-annotated (wa) - literal sites are checked, 8 dynamic sites are listed in the evidence. One known finding (pipeline `reject 4yz`)."),
  "C17": ("Equivalence/key coincidence, ASCII test, split/join and quote/unquote laws are proved for all code-point strings with the Unicode/IDNA library left abstract; idempotence and ASCII/Unicode round-trip are proved from explicit library hypotheses (partial); the model is compared with the real helpers, library oracles being tables recorded from the real library per case.",
